@@ -113,7 +113,7 @@ def nodes():
             props,
             st.one_of(st.none(), st.none(), style_values()),
             st.lists(ch, max_size=max_kids),
-            st.lists(st.sampled_from(["ctor", "ctor", "list", "append", "extend"]), min_size=4, max_size=4),
+            st.lists(st.sampled_from(["ctor", "ctor", "list", "append", "extend", "extend-gen", "extend-tuple"]), min_size=4, max_size=4),
         )
 
     def tfy(ch):
@@ -194,7 +194,7 @@ def build_node(r):
         switched = False
         for i, c in enumerate(kids):
             how = hows[i % len(hows)]
-            if how in ("append", "extend"):
+            if how in ("append", "extend", "extend-gen", "extend-tuple"):
                 switched = True
             if switched:
                 later.append((how, c))
@@ -206,6 +206,10 @@ def build_node(r):
         for how, c in later:
             if how == "extend":
                 comp.extend([c])
+            elif how == "extend-gen":
+                comp.extend(x for x in [c])  # any iterable, also one that can be consumed only once
+            elif how == "extend-tuple":
+                comp.extend((c,))
             else:
                 comp.append(c)
         return comp
@@ -378,7 +382,8 @@ def body_component(case, note):
         "metadata-below-top" if deep_meta else "",
         "node-valued-prop" if any(v["t"] == "node" for _, v in effective_props(r)) else "",
         "style-prop" if any(norm(p) == "style" for p, _ in r["props"]) else "",
-        "added-later" if any(hw in ("append", "extend") for hw in r["hows"][: len(r["kids"])]) else "",
+        "added-later" if any(hw in ("append", "extend", "extend-gen", "extend-tuple") for hw in r["hows"][: len(r["kids"])]) else "",
+        "added-from-one-shot-iterable" if any(hw == "extend-gen" for hw in r["hows"][: len(r["kids"])]) else "",
         "edited-then-converted-again" if edited else "",
     )
 
@@ -457,7 +462,7 @@ CLAUSES = [
         quick=500,
         thorough=8000,
         shards_quick=4,
-        required=("tfy", "metadata-below-top", "node-valued-prop", "style-prop", "added-later", "edited-then-converted-again"),
+        required=("tfy", "metadata-below-top", "node-valued-prop", "style-prop", "added-later", "added-from-one-shot-iterable", "edited-then-converted-again"),
         rule="see RULE",
     ),
     Clause("allowlist", body_allow, strategy=allow_case, quick=400, thorough=3000, shards_quick=1, shards_thorough=2, required=("rejected", "accepted"), rule="some but not all props outside the list"),
